@@ -5,7 +5,8 @@
    Model (Model/Include.v): [includes isc fs cwd fuel stack file] mirrors
    parse(file_name=file, process_includes=True, include_stack=stack) + scope.process_includes;
    [includes_file] / [includes_string] are the two ways in (root = file / root = string) with the
-   fuel the executable model uses (number of table entries + 1).  [fs] (files + parser), [cwd]
+   fuel the executable model uses (twice the number of table entries + 1: a file can be on
+   the stack as "/x" and as "//x").  [fs] (files + parser), [cwd]
    and [isc] ("include scope") are oracles; the theorems hold for every value of them.
    Specification (Proofs/IncludeSpec.v): [Expands isc fs cwd chk stack file t] - replace every
    active "include file" line by the expansion of the named file, recursively, relative names
@@ -102,3 +103,8 @@ Proof. exact (conj ex_cyc_cyclic (conj ex_cyc_clean ex_cyc_result)). Qed.
 Example C13_example_relative_root :
   includes_file isc0 fs_dia (s_ "/r/sub") (s_ "../a.phil") = includes_file isc0 fs_dia cwd_x pa.
 Proof. exact ex_rel_root. Qed.
+
+Example C13_example_double_slash :
+  includes_file isc0 fs_ds cwd_x pa =
+  UErr k_cycle (s_ "/r/a.phil, //r/sub/b.phil, //r/a.phil, //r/sub/b.phil") 0.
+Proof. exact ex_dslash. Qed.
